@@ -58,6 +58,11 @@ VecPaRoundTrip(r)  == CircWithin360(r.v_pa_out, r.v_pa_in, AngTolUdeg)
 \* bearing (East of North) of the head seen from the tail
 VecGreatCircle(r) == RelWithin(r.v_r_out, r.v_sep, LenTolPpm)
 VecBearing(r)     == CircWithin360(r.v_pa_out, r.v_bear, AngTolUdeg)
+\* the same two facts when the tail is given as a pixel position of INTEGER type (a pixel centre from an index
+\* search): the offset of the head is still a real number
+IntVecGreatCircle(r) == RelWithin(r.iv_r_out, r.iv_sep, LenTolPpm)
+IntVecBearing(r)     == CircWithin360(r.iv_pa_out, r.iv_bear, AngTolUdeg)
+IntEllGreatCircle(r) == RelWithin(r.ie_a_out, r.ie_sep, LenTolPpm)
 
 \* the pixel vector returned by sky2pix_vec ends, on the standard sky, a
 \* great-circle distance r from the origin in the direction pa East of North
